@@ -84,6 +84,7 @@ class KDMixCollator(KDSingleCollator):
             idx = ModeWrapper.get_item(mode=dataset_mode, item="index", batch=batch)
         if ModeWrapper.has_item(mode=dataset_mode, item="x"):
             x = ModeWrapper.get_item(mode=dataset_mode, item="x", batch=batch)
+            assert torch.is_tensor(x), "KDMixCollator expects one image tensor per sample (multi-view x is not supported)"
         if ModeWrapper.has_item(mode=dataset_mode, item="class"):
             y = ModeWrapper.get_item(mode=dataset_mode, item="class", batch=batch).type(torch.float32)
             # y has to be 2d tensor of in one-hot format (multi-class) or 1d tensor (binary-classification)
